@@ -182,3 +182,21 @@ func VerifH_ConfContext() {
 	cancel()
 	symx.Reach("end")
 }
+
+type confBuf struct{ b []byte }
+
+var confPool = sync.Pool{New: func() interface{} { return &confBuf{} }}
+
+func VerifH_ConfPool() {
+	a := confPool.Get().(*confBuf)
+	a.b = append(a.b[:0], 'x')
+	confPool.Put(a)
+	b := confPool.Get().(*confBuf)
+	// the pool may hand the same object back or make a new one
+	symx.Assert(b == a || len(b.b) == 0, "sync.Pool returns a pooled or a new object")
+	c := confPool.Get().(*confBuf)
+	symx.Assert(c != b, "an object that was not put back is not handed out again")
+	var p2 sync.Pool
+	symx.Assert(p2.Get() == nil, "Get on an empty pool without New is nil")
+	symx.Reach("end")
+}
